@@ -345,6 +345,7 @@ class ArgumentParser:
         namespace = argparse.Namespace()
         namespace.defines = []
         namespace.include_paths = []
+        namespace.system_include_paths = []
         namespace.include_files = []
         namespace.modes = []
 
@@ -361,10 +362,10 @@ class ArgumentParser:
             allow_abbrev=False,
         )
         parser.add_argument("-D", dest="defines", action="append")
+        parser.add_argument("-I", dest="include_paths", action="append")
         parser.add_argument(
-            "-I",
             "-isystem",
-            dest="include_paths",
+            dest="system_include_paths",
             action="append",
         )
         parser.add_argument(
@@ -408,6 +409,10 @@ class ArgumentParser:
         )
         if unrecognized:
             log.warning(f"Unrecognized arguments: '{' '.join(unrecognized)}'")
+
+        # Directories given with -isystem are searched after all
+        # directories given with -I, whatever their order on the command line.
+        args.include_paths = args.include_paths + args.system_include_paths
 
         # Construct final list of active modes.
         args.modes = set(args.modes)
